@@ -81,7 +81,87 @@ def run(ctx, res):
                                    rule='C05.reject-pure', key="C05|reject-pure|%s|%s" % (np_, lab),
                                    msg="%s: the exit returning %s can follow a write to the editor (a rejected operation must change nothing)" % (np_, lab)))
         check_moves(res, cfg, lib)
+        check_char_units(res, cfg, lib)
     res.exhaustive = True
+
+
+def check_char_units(res, cfg, lib):
+    """U: the cursor is a *character* index: `move_right` is guarded by `cursor < len()` (the character count, not the
+    byte count) and a successful completion leaves the cursor at `len()`."""
+    lens = [f for f in lib.lib_fns() if base.self_adt(f) == 'editor::Editor' and f.name == 'len' and f.impl_trait is None]
+    if len(lens) != 1:
+        raise KeyError("Editor::len not found")
+    len_np = lens[0].npath
+    # Editor::len itself: the character count of the current text
+    class LenRule:
+        def inline_ok(self, I, ci, body):
+            return False
+
+        def on_call(self, I, w, ci, args):
+            if (ci.nresolved or ci.npath or '').endswith('utils::char_count'):
+                return [(w, ('sym', 'chars(%s)' % session.atom_name(args[0])))]
+            if base.self_adt(I.find_body(ci)) == 'editor::Editor' if I.find_body(ci) is not None else False:
+                b = I.find_body(ci)
+                if b.name == 'text':
+                    return [(w, ('sym', 'text'))]
+            return None
+    I = Interp([lib], LenRule())
+    ex = I.run(lens[0], [('ref', (-1, 0, ()))], None, {(-1, 0): I.make_adt('editor::Editor')})
+    vals = {rv for w, rv in ex}
+    good = vals == {('sym', 'chars(text)')}
+    res.oblige("U|%s|len" % cfg, good, sample="Editor::len = %s" % sorted(map(str, vals)), violation=None if good else dict(
+        rule='C05.units', key="C05|units|len", msg="Editor::len is not the character count of the current text (%s)" % sorted(map(str, vals))))
+
+    class R:
+        def __init__(self):
+            self.n = 0
+
+        def inline_ok(self, I, ci, body):
+            return False
+
+        def on_call(self, I, w, ci, args):
+            b = I.find_body(ci)
+            if b is not None and b.npath == len_np:
+                return [(w.with_st(w.st + ('len()',)), ('sym', 'len'))]
+            return None
+
+        def on_symbranch(self, I, w, v, truth):
+            def nm(x):
+                return x[1] if x[0] == 'sym' else str(x)
+            return w.with_st(w.st + ('IF(%s %s %s):%s' % (nm(v[2]), v[1], nm(v[3]), 'T' if truth else 'F'),))
+
+    f = [x for x in base.editor_methods(lib) if x.name == 'move_right'][0]
+    I = Interp([lib], R())
+    ed = I.make_adt('editor::Editor', buffer=('sym', 'buffer0'), cursor=('sym', 'c'), valid=('sym', 'valid0'))
+    for w, rv in I.run(f, [('ref', (-1, 0, ()))], (), {(-1, 0): ed}):
+        lab = base.outcome_label(rv)
+        want = ('len()', 'IF(c Lt len):%s' % ('T' if lab == 'true' else 'F'))
+        good = w.st == want
+        res.oblige("U|%s|move_right|%s" % (cfg, lab), good, sample="move_right:%s guard %s" % (lab, w.st), violation=None if good else dict(
+            rule='C05.units', key="C05|units|move_right|%s" % lab,
+            msg="%s: the exit returning %s is guarded by %s, expected `cursor < len()` (character count) to be %s" % (
+                f.npath, lab, list(w.st), lab)))
+    # completion leaves the cursor at len()
+    fs = [x for x in base.editor_methods(lib) if x.name == 'autocompletion']
+    if fs:
+        f = fs[0]
+        I = Interp([lib], R())
+        ed = I.make_adt('editor::Editor', buffer=('sym', 'buffer0'), cursor=('sym', 'c'), valid=('sym', 'valid0'))
+        ci_ = I.field_index('editor::Editor', 'cursor')
+        vi_ = I.field_index('editor::Editor', 'valid')
+        n = 0
+        for w, rv in I.run(f, [('ref', (-1, 0, ())), TOP], (), {(-1, 0): ed}):
+            e = w.store[(-1, 0)]
+            cur = e[3][ci_]
+            changed = e[3][vi_] != ('sym', 'valid0')
+            good = cur == ('sym', 'len') if changed else cur in (('sym', 'c'), ('sym', 'len'))
+            n += 1
+            res.oblige("U|%s|autocompletion|%s|%s" % (cfg, 'completed' if changed else 'unchanged', cur[:2]), good,
+                       violation=None if good else dict(
+                           rule='C05.units', key="C05|units|autocompletion",
+                           msg="%s: after a completion the cursor is %s, expected the character count `len()` of the new line" % (f.npath, cur)))
+        if n < 2:
+            raise KeyError("Editor::autocompletion: fewer than 2 abstract exits")
 
 
 def check_moves(res, cfg, lib):
